@@ -323,7 +323,8 @@ def all_cases(seed: int, thorough: bool, per_class: int = 10 ** 9) -> List[Case]
             start = rng.randrange(len(idxs))
             step = len(idxs) / per_class
             keep.update(idxs[(start + int(j * step)) % len(idxs)] for j in range(per_class))
-    return [c for i, c in enumerate(fam) if i in keep] + list(extra_cases())
+    import _c10attr
+    return [c for i, c in enumerate(fam) if i in keep] + list(extra_cases()) + list(_c10attr.attr_cases())
 
 
 def run_case(c: Case) -> Dict[str, Any]:
